@@ -30,4 +30,25 @@ MUTATIONS = [
     dict(id="c15_rewrite_guard", prop="C15", file="crates/core/src/commands/rewrite.rs", old="    let config_file = repo.config();\n    if opts.forget && config_file.append_only == Some(true) {\n        return Err(RusticError::new(\n            ErrorKind::AppendOnly,\n            \"Removing snapshots is not allowed in append-only repositories. Please disable append-only mode first, if you know what you are doing. Aborting.\",\n        ));\n    }\n    let mut rewriter", new="    let config_file = repo.config();\n    if opts.forget && opts.dry_run && config_file.append_only == Some(true) {\n        return Err(RusticError::new(\n            ErrorKind::AppendOnly,\n            \"Removing snapshots is not allowed in append-only repositories. Please disable append-only mode first, if you know what you are doing. Aborting.\",\n        ));\n    }\n    let mut rewriter"),
     dict(id="c15_modifier_finalize", prop="C15", file="crates/core/src/blob/tree/modify.rs", old="        if !self.dry_run {\n            _ = self.packer.finalize()?;", new="        {\n            _ = self.packer.finalize()?;"),
     dict(id="c15_modifier_save", prop="C15", file="crates/core/src/blob/tree/modify.rs", old="if !self.index.has_tree(&new_id) && !self.dry_run {", new="if !self.index.has_tree(&new_id) || !self.dry_run {"),
+    dict(id="c14_no_guard", prop="C14", file="crates/core/src/blob/tree.rs", old="if !is_plain_name(&name) {", new="if false {"),
+    dict(id="c07_untyped_insert", prop="C07", file="crates/core/src/index/indexer.rs", old="_ = indexed.insert((blob.tpe, blob.id));", new="_ = indexed.insert((BlobType::Data, blob.id));"),
+    dict(id="c07_has_any_type", prop="C07", file="crates/core/src/index/indexer.rs", old=".is_some_and(|indexed| indexed.contains(&(tpe, *id)))", new=".is_some_and(|indexed| indexed.contains(&(tpe, *id)) || indexed.contains(&(BlobType::Data, *id)))"),
+    dict(id="c08_offset_off_by_one", prop="C08", file=PK, old="        let offset = self.size;\n", new="        let offset = self.size.saturating_sub(1);\n"),
+    dict(id="c08_no_count", prop="C08", file=PK, old="            .add(*id, self.blob_type, offset, len, uncompressed_length);\n        self.count += 1;", new="            .add(*id, self.blob_type, offset, len, uncompressed_length);"),
+    dict(id="c08_wrong_type", prop="C08", file=PK, old="            .add(*id, self.blob_type, offset, len, uncompressed_length);", new="            .add(*id, BlobType::Data, offset, len, uncompressed_length);"),
+    dict(id="c08_dup_not_noop", prop="C08", file=PK, old="        if self.has(id) {\n            return Ok(());\n        }\n        self.stats.blobs += 1;", new="        self.stats.blobs += 1;"),
+    dict(id="c08_take_before_header", prop="C08", file=PK, old="        self.basic.write_header(data)?;\n\n        // write file to backend\n        let (file, index) = self.basic.take_data();", new="        // write file to backend\n        let (file, index) = self.basic.take_data();\n        self.basic.write_header(data)?;"),
+    dict(id="c08_entry_len", prop="C08", file="crates/core/src/repofile/packfile.rs", old="const ENTRY_LEN: u32 = 37;", new="const ENTRY_LEN: u32 = 36;"),
+    dict(id="c08_from_file_check", prop="C08", file="crates/core/src/repofile/packfile.rs", old="if header.pack_size() != pack_size {", new="if header.pack_size() > pack_size {"),
+    dict(id="c08_into_blob_type", prop="C08", file="crates/core/src/repofile/packfile.rs", old="                id: id.into(),
+                tpe: BlobType::Tree,", new="                id: id.into(),
+                tpe: BlobType::Data,"),
+    dict(id="c17_wrong_pack", prop="C17", file="crates/core/src/index/binarysorted.rs", old="self.0[blob_type].packs[be.pack_idx as usize],", new="self.0[blob_type].packs[0],"),
+    dict(id="c17_has_ids_inverted", prop="C17", file="crates/core/src/index/binarysorted.rs", old="EntriesVariants::Ids(ids) => ids.binary_search(id).is_ok(),", new="EntriesVariants::Ids(ids) => ids.binary_search(id).is_err(),"),
+    dict(id="c17_extend_idx", prop="C17", file="crates/core/src/index/binarysorted.rs", old="                    pack_idx: idx,", new="                    pack_idx: idx + 1,"),
+    dict(id="c17_total_size", prop="C17", file="crates/core/src/index/binarysorted.rs", old="self.0[blob_type].total_size += u64::from(size);", new="self.0[BlobType::Data].total_size += u64::from(size);"),
+    dict(id="c17_no_sort", prop="C17", file="crates/core/src/index/binarysorted.rs", old="EntriesVariants::Ids(ids) => ids.par_sort_unstable(),", new="EntriesVariants::Ids(_ids) => {}"),
+    dict(id="c17_new_mode", prop="C17", file="crates/core/src/index/binarysorted.rs", old="IndexType::DataIds => EntriesVariants::Ids(Vec::new()),", new="IndexType::DataIds => EntriesVariants::None,"),
+    dict(id="c02_append_len", prop="C02", file="crates/core/src/blob.rs", old="self.length = other.offset + other.length - self.offset; // read till the end of other", new="self.length = self.length + other.length; // read till the end of other"),
+    dict(id="c02_coalesce_overlap", prop="C02", file="crates/core/src/blob.rs", old="&& other.offset >= self.offset + self.length", new="&& other.offset >= self.offset"),
 ]
